@@ -5,6 +5,6 @@ cd /repo || exit 9
 git apply --check "$p" || { echo "patch does not apply"; exit 9; }
 git apply "$p"
 for prop in "$@"; do
-  (cd /verif && ./check $prop --no-evidence 2>&1 | grep -E "^VIOLATION|^UNDECIDED|^C[0-9]+:" | cut -c1-260)
+  (cd /verif && ./check $prop --no-evidence 2>&1 | grep -E "^VIOLATION|^UNDECIDED|^C[0-9]+:" | cut -c1-700)
 done
 git -C /repo checkout -- .
